@@ -81,8 +81,11 @@ NNSAccounting(st, e) ==
 NotaryStates(k, e) ==
   IF k \in NotaryKinds /\ e < 17
   THEN { {}, {I("notary", "", "", "false")} }
-       \cup { {I("notary", "", "", "true")} \cup b : b \in { {}, {I("ballots", "", "", "empty")}, {I("ballots", "", "", "stale")},
-                                                            {I("ballots", "", "", "fresh")}, {I("ballots", "", "", "mixed")} } }
+       \* (the Audit contract never collected votes: its storage has no ballots, cf. the recorded dumps)
+       \cup { {I("notary", "", "", "true")} \cup b : b \in (IF k \in PurgeKinds
+                                                            THEN { {}, {I("ballots", "", "", "empty")}, {I("ballots", "", "", "stale")},
+                                                                   {I("ballots", "", "", "fresh")}, {I("ballots", "", "", "mixed")} }
+                                                            ELSE { {} }) }
   ELSE { {} }
 
 \* the Alphabet migration out of the non-notary mode distributes GAS; it is driven by the traps only
@@ -91,13 +94,14 @@ Stores(k, e) ==
       g \in SUBSET Groups(k, e), nf \in NotaryStates(k, e) }
 
 \* mode "real": the tree's code with lowered version constants, populated through its API (no synthetic storage)
-RealVersions == {Prev - 1, Prev, New - 1, New, New + 1}
+\* (Netmap and NNS changed their layout after Prev: the tree's layout under the version number Prev never existed)
+RealVersions(k) == {Prev - 1, New - 1, New, New + 1} \cup (IF k \in {"netmap", "nns"} THEN {} ELSE {Prev})
 
 MCInit ==
   /\ kind \in MCKinds /\ mode \in MCModes
   /\ \/ /\ mode = "shell" /\ era \in Eras /\ ver = -1
         /\ store \in Stores(kind, era)
-     \/ /\ mode = "real" /\ era = 19 /\ ver \in RealVersions
+     \/ /\ mode = "real" /\ era = 19 /\ ver \in RealVersions(kind)
         /\ store = {}
   /\ api = ApiOf(kind, ver, store)
   /\ ev = Event("init", {}, 0, "HALT")
@@ -129,6 +133,7 @@ EmitScenario == IF Len(hist) = SimLen
                 ELSE TRUE
 
 P_C16 == [][/\ C16_Gated(ev', ver # -1) /\ C16_Window(ev')
+            /\ C16_Accepts(ev', ver # -1, ev'.v < 17000 /\ PendingVote(kind, store))
             /\ C16_Inert(ev', store' = store) /\ C16_Preserves(ev')]_mcvars
 
 \* design-level sanity: the other direction (not demanded by the statement, true of the Spec)
